@@ -487,7 +487,9 @@ func (w *world) exec(op string) string {
 					fin = true
 				default:
 				}
-				if !w.poisoned {
+				// a chunk with an encoding unknown to the pool reads back differently from the queue/buffer
+				// (the object itself) and from the file (Pool.Get fails): only the final read is reported
+				if !w.poisoned && enc >= 1 && enc <= 6 {
 					add(w.readStr(ref))
 				}
 				if i > 50 {
